@@ -979,9 +979,9 @@ Lemma encrypt_total_from_HILD svc prod cf h s x fa payload :
   nz_store (w_store w) -> new_key_timestamp (w_now w) (p_precision (fa_policy fa)) <> 0 ->
   exists pm c, fst (fst (hstep h (HEncrypt s payload []))) = OEnc pm c.
 Proof.
-  intros [D [kinds [H [HIL0 [_ O]]]]] w Es T NF Ef NZ TZ. fold w in HIL0, O.
+  intros [D [kinds [H [HIL0 O]]]] w Es T NF Ef NZ TZ. fold w in HIL0, O.
   assert (EL : env_live D {| en_part := ss_part x; en_pol := fa_policy fa; en_sk := fa_sk fa; en_ik := ss_ik x |}).
-  { split; cbn [en_sk en_ik]; [exact (proj1 (ow_fact cf D w O _ fa Ef NF)) | exact (proj2 (ow_sess cf D w O s x Es) T (or_intror NF))]. }
+  { split; cbn [en_sk en_ik]; [exact (proj1 (ow_fact cf D w O _ fa Ef NF)) | exact (ow_sess cf D w O s x Es T (or_intror NF))]. }
   cbn [hstep]. fold w. set (w0 := begin_op [] w).
   pose proof (IL_begin_op D svc prod kinds H [] w HIL0) as [HI0 L0]. fold w0 in HI0, L0.
   assert (HB : Base D svc prod kinds (w_now w) H w0).
@@ -998,7 +998,7 @@ Proof.
   destruct Y as [_ [k [c [ikm [n [dkm [n' [Dk [Ep _]]]]]]]]]. rewrite Dk, Ep. eexists; eexists; reflexivity.
 Qed.
 
-(* At the API, for the DEFAULT policy too (every session owns its intermediate-key cache, Session.Close destroys it) and with factories being
+(* At the API, for EVERY policy - per-session, shared or no key caches, with or without the session cache - and with factories being
    closed (SessionFactory.Close destroys the factory's system-key cache and its shared intermediate-key cache): after any history of new
    factories, sessions, encrypts and decrypts under any fault plans, clock changes, revocations, session closes and factory closes in which
    nothing addresses a closed session or a session of a closed factory, an Encrypt on an OPEN session of an open factory for which no fault is
